@@ -5,7 +5,7 @@ from __future__ import annotations
 
 from vt.ref import hap
 
-FAULTS = ["honest", "flip-enc", "flip-pk", "drop-enc", "swap-state", "other-identity"]
+FAULTS = ["honest", "flip-enc", "flip-pk", "drop-enc", "swap-state", "other-identity", "split-pk-sep", "split-enc-vendor", "split-enc-retry", "state-zero-ext", "state-doubled", "pk-twice-wrong-last", "enc-twice-wrong-last"]
 IP_ONLY_FAULTS = ["auth-error-470", "m4-auth-error-470", "m4-auth-error-470-no-state", "m4-auth-error", "auth-error"]  # the accessory refuses: error TLV with HTTP 200 or inside a 4xx reply
 
 
@@ -21,6 +21,18 @@ def _edit(fault, seed):
         return lambda items: [(t, flip(v, 5) if t == hap.T_PK else v) for t, v in items]
     if fault == "drop-enc":
         return lambda items: [i for i in items if i[0] != hap.T_ENC]
+    if fault.startswith("split-"):
+        # one field cut in two around a foreign item: two short values to a TLV8 reader, never the authentic one
+        which = hap.T_PK if "pk" in fault else hap.T_ENC
+        mid = {"sep": (255, b""), "vendor": (0x80, b"\x01"), "retry": (8, b"\x01")}[fault.rsplit("-", 1)[1]]
+        return lambda items: [x for t, v in items for x in ([(t, v[: len(v) // 2]), mid, (t, v[len(v) // 2:])] if t == which else [(t, v)])]
+    if fault == "state-zero-ext":
+        return lambda items: [(t, v + b"\x00" if t == hap.T_STATE else v) for t, v in items]
+    if fault == "state-doubled":
+        return lambda items: [x for t, v in items for x in ([(t, v), (t, b"\x00")] if t == hap.T_STATE else [(t, v)])]
+    if fault in ("pk-twice-wrong-last", "enc-twice-wrong-last"):
+        which = hap.T_PK if fault.startswith("pk") else hap.T_ENC
+        return lambda items: [x for t, v in items for x in ([(t, v), (255, b""), (t, flip(v, 9))] if t == which else [(t, v)])]
     if fault == "swap-state":
         return lambda items: [(t, b"\x03" if t == hap.T_STATE else v) for t, v in items]
     return None
